@@ -7,7 +7,7 @@ open C18 C17
 /-- the module an event is about. -/
 def REv.target : REv → Mod
   | .wStart m | .wStop m | .awaitOk m _ | .awaitFail m _ | .awaitCancelled m | .depsDone m | .innerUp m
-  | .innerStartFailed m | .cleanupDone m | .runExit m | .dependantsGone m | .innerStopped m
+  | .innerStartFailed m | .cleanupDone m | .runExit m | .stopLooks m | .dependantsGone m | .innerStopped m
   | .iStartRet m _ | .iRunRet m _ | .iStopRet m _ => m
 
 theorem local_target (s : Sys) (e : REv) (k : Mod) (x : ModSt) (h : s.local e = some (k, x)) : k = REv.target e := by
@@ -50,18 +50,19 @@ theorem terminal_absorbing_run (s : Sys) (evs : List REv) (m : Mod) (h : (s.st m
 
 /-! ### one module, the events of `modSched` -/
 
-inductive LK | wStop | awaitCancelled | innerStartFailed | runExit | dependantsGone
+inductive LK | wStop | awaitCancelled | innerStartFailed | runExit | stopLooks | dependantsGone
   | iStartRet | iRunRet | iStopRet | cleanupDone | innerStopped
 deriving DecidableEq, Repr
 
 def LK.ev (m : Mod) : LK → REv
   | .wStop => .wStop m | .awaitCancelled => .awaitCancelled m | .innerStartFailed => .innerStartFailed m
-  | .runExit => .runExit m | .dependantsGone => .dependantsGone m | .iStartRet => .iStartRet m true
+  | .runExit => .runExit m | .stopLooks => .stopLooks m | .dependantsGone => .dependantsGone m
+  | .iStartRet => .iStartRet m true
   | .iRunRet => .iRunRet m true | .iStopRet => .iStopRet m true | .cleanupDone => .cleanupDone m
   | .innerStopped => .innerStopped m
 
 def LK.all : List LK :=
-  [.wStop, .awaitCancelled, .innerStartFailed, .runExit, .dependantsGone, .iStartRet, .iRunRet, .iStopRet,
+  [.wStop, .awaitCancelled, .innerStartFailed, .runExit, .stopLooks, .dependantsGone, .iStartRet, .iRunRet, .iStopRet,
    .cleanupDone, .innerStopped]
 
 theorem modSched_eq (m : Mod) : modSched m = LK.all.map (LK.ev m) := rfl
@@ -71,7 +72,7 @@ def lstep (dt : Bool) (x : ModSt) : LK → ModSt
   | .wStop =>
     match x.ph with
     | .idle => { x with ph := .term }
-    | .term | .failed | .stopWait | .innerStop => x
+    | .term | .failed | .stopEntry | .stopWait | .innerStop => x
     | _ => { x with wctx := true }
   | .awaitCancelled =>
     match x.ph with
@@ -81,8 +82,9 @@ def lstep (dt : Bool) (x : ModSt) : LK → ModSt
     if x.ph = .innerStart ∧ (x.wctx ∨ x.inner = .stopping ∨ x.inner = .terminated ∨ x.inner = .failed) then
       { (innerStopAsync x) with ph := .startCleanup }
     else x
-  | .runExit =>
-    if x.ph = .run ∧ (x.wctx ∨ x.inner.terminal) then
+  | .runExit => if x.ph = .run ∧ (x.wctx ∨ x.inner.terminal) then { x with ph := .stopEntry } else x
+  | .stopLooks =>
+    if x.ph = .stopEntry then
       (if x.inner = .running then { x with ph := .stopWait }
        else { x with ph := if x.inner = .failed then .failed else .term })
     else x
@@ -152,6 +154,11 @@ theorem lt_run (w : Bool) (i : SState) (q f a b c : Bool) :
   cases i <;> cases w <;> cases q <;> cases f <;>
     simp [LK.all, lstep, innerStopAsync, WPhase.terminal, SState.terminal]
 
+theorem lt_sentry (w : Bool) (i : SState) (q f a b c : Bool) :
+    (LK.all.foldl (lstep true) ⟨.stopEntry, w, i, q, f, a, b, c⟩).ph.terminal = true := by
+  cases i <;> cases w <;> cases q <;> cases f <;>
+    simp [LK.all, lstep, innerStopAsync, WPhase.terminal, SState.terminal]
+
 theorem lt_swait (w : Bool) (i : SState) (q f a b c : Bool) :
     (LK.all.foldl (lstep true) ⟨.stopWait, w, i, q, f, a, b, c⟩).ph.terminal = true := by
   cases i <;> cases w <;> cases q <;> cases f <;>
@@ -181,6 +188,7 @@ theorem lsched_terminal (x : ModSt) (hs : Sane x) : (LK.all.foldl (lstep true) x
   | innerStart => exact lt_istart ..
   | startCleanup => exact lt_clean _ _ _ _ _ _ _ (hs (Or.inl rfl))
   | run => exact lt_run ..
+  | stopEntry => exact lt_sentry ..
   | stopWait => exact lt_swait ..
   | innerStop => exact lt_istop _ _ _ _ _ _ _ (hs (Or.inr rfl))
   | term => exact lt_term ..
